@@ -229,23 +229,25 @@ def run(rep, tier):
         raise AnalysisBroken("switch_status::operator= not found")
     sop = sop[0]
     ctor = [e for _, _, e in sop.all_events() if e.get("k") == "ctor" and "combined_tagged_state" in str(e.get("rec")) and len(e.get("args") or []) == 3]
-    asg = [e for _, _, e in sop.all_events() if e.get("k") == "call" and e.get("op") == "=" and P(e.get("recv")) == "this->prev_state_"]
+    asg = [e for _, _, e in sop.all_events() if e.get("k") == "call" and e.get("op") == "=" and str(e.get("callee", "")).endswith("combined_tagged_state::operator=") and
+           P(e.get("recv")).startswith("this->")]
     if len(ctor) != 1 or not asg:
         raise AnalysisBroken("switch_status::operator=: construction of the state to publish not found")
     par = sop.params[0]["name"] if sop.params else "new_state"
     a0, a1, a2 = ctor[0]["args"]
+    PS = P(asg[0]["recv"])          # the member holding the state to publish (whatever it is called)
     okv = True
     try:
-        okv = _et(a2, {"this->prev_state_.tag()": 41}) == 42
+        okv = _et(a2, {PS + ".tag()": 41}) == 42
     except _Unk:
         okv = False
-    if T(strip(a0)) == par + ".first" and T(strip(a1)) == "this->prev_state_.state_ex()" and okv:
+    if T(strip(a0)) == par + ".first" and T(strip(a1)) == PS + ".state_ex()" and okv:
         rep.ok("C01.R15", sop, "the state to publish is (returned state, state_ex, tag + 1)")
     else:
         rep.bad("C01.R15", sop, loc_of(ctor[0]), "publish-state", "switch_status::operator= builds the state to publish as (%s, %s, %s): it must be (returned state, "
                 "prev_state_.state_ex(), prev_state_.tag() + 1) - without a new tag per phase a wake-up that raced with an earlier phase is taken for the current one "
                 "(set_active_state cannot tell that the task was suspended and resumed in between)" % (T(a0), T(a1), T(a2)))
-    nx = [e for _, _, e in sop.all_events() if e.get("k") == "call" and e.get("op") == "=" and P(e.get("recv")) == "this->next_thread_id_" and (par + ".second") in T(e["args"][0])]
+    nx = [e for _, _, e in sop.all_events() if e.get("k") == "call" and e.get("op") == "=" and P(e.get("recv")).startswith("this->") and (par + ".second") in T(e["args"][0])]
     if nx:
         rep.ok("C01.R15", sop, "the thread the body handed back as 'next' is kept")
     else:
@@ -265,16 +267,22 @@ def run(rep, tier):
                     "task it still owns (a pending task is never queued again)" % (v.get("v"), ("succeeded" if won[0] else "failed") if won else "was not consulted"))
     if nret < 2:
         raise AnalysisBroken("switch_status::store_state: returns not found")
-    outw = [e for _, _, e in stf.all_events() if e.get("k") == "call" and e.get("op") == "=" and stf.params and P(e.get("recv")) == stf.params[0]["name"] and T(strip(e["args"][0])) == "this->prev_state_"]
+    outw = [e for _, _, e in stf.all_events() if e.get("k") == "call" and e.get("op") == "=" and stf.params and P(e.get("recv")) == stf.params[0]["name"] and T(strip(e["args"][0])) == PS]
     if outw:
         rep.ok("C01.R15", stf, "the published state is handed to the caller")
     else:
         rep.bad("C01.R15", stf, stf.loc, "published-state-not-returned", "store_state does not hand the published state to the scheduling loop: the loop dispatches on a stale state")
-    dr = [f for f in F.find(r"^pika::threads::detail::switch_status::disable_restore$") if f.parent == -1]
-    dis_direct = [e for _, _, e in stf.all_events() if e.get("k") == "write" and P(e["lhs"]) == "this->need_restore_state_"]
-    dis_call = [e for _, _, e in stf.all_events() if e.get("k") == "call" and callee_short(e) == "disable_restore"]
-    dvals = [T(strip(e["rhs"])) for e in dis_direct] + [T(strip(e["rhs"])) for f_ in dr for _, _, e in f_.all_events() if e.get("k") == "write" and P(e["lhs"]) == "this->need_restore_state_"]
-    if (dis_direct or (dis_call and dr)) and dvals and all(v == "false" for v in dvals):
+    dts = [f for f in F.find(r"^pika::threads::detail::switch_status::~switch_status$") if f.parent == -1]
+    flags = [cond_atoms(blk.cond)[0] for f_ in dts for blk in f_.blocks.values() if blk.cond is not None and re.match(r"^this->\w+$", cond_atoms(blk.cond)[0])]
+    if not flags:
+        raise AnalysisBroken("switch_status: the flag the destructor tests before publishing was not found")
+    RF = flags[0]
+    # every private helper store_state calls that writes the flag (disable_restore, whatever it is called) counts
+    helpers = [f_ for f_ in F.fns if f_.parent == -1 and f_.qname.startswith("pika::threads::detail::switch_status::") and
+               any(e.get("k") == "call" and callee_of(e) == f_.qname for _, _, e in stf.all_events())]
+    dis_direct = [e for _, _, e in stf.all_events() if e.get("k") == "write" and P(e["lhs"]) == RF]
+    dvals = [T(strip(e["rhs"])) for e in dis_direct] + [T(strip(e["rhs"])) for f_ in helpers for _, _, e in f_.all_events() if e.get("k") == "write" and P(e["lhs"]) == RF]
+    if dvals and all(v == "false" for v in dvals):
         rep.ok("C01.R15", stf, "an explicit store_state switches the destructor's publication off")
     else:
         rep.bad("C01.R15", stf, stf.loc, "restore-not-disabled", "after an explicit store_state the destructor still publishes (need_restore_state_ not cleared): the state is "
